@@ -481,7 +481,12 @@ func normAtom(t *Term, nilness func(*Term) int) Atom {
 			return Atom{Key: "TLt(" + t.Args[1].Key() + ", " + t.Args[0].Key() + ")", Pol: pol}
 		case "(time.Time).IsZero":
 			if t.Args[0] == tZero || (t.Args[0].Op == "struct" && len(t.Args[0].Fields) == 0 && t.Args[0].Name == "time.Time") {
-				return mkc(true)
+				// structurally the zero time: decided, but keep an informative label
+				at := Atom{Key: "TZero(zero)", Pol: pol, Const: 1}
+				if !pol {
+					at.Const = -1
+				}
+				return at
 			}
 			return Atom{Key: "TZero(" + t.Args[0].Key() + ")", Pol: pol}
 		case "errors.Is":
